@@ -203,10 +203,14 @@ def iface_pkg_of(key):
     return body.rsplit('.', 1)[0].rsplit('.', 1)[0]
 
 
+_nested = set()
+
+
 def contract_modset(V, key, c, pkg):
     from .speceval import resolve_type
     from .calls import alloc_spaces
     w = V.world
+    prog = w.prog
     out = set()
 
     class _X:
@@ -222,6 +226,14 @@ def contract_modset(V, key, c, pkg):
             ALLOC_SINK.update(hkeys)
     for (ast, txt) in (c['assigns'] or []):
         out |= assigns_item_keys(V, ast, pkg, key)
+    if c['assigns'] is None and key in prog.funcs and prog.funcs[key]['blocks'] and key not in _nested:
+        _nested.add(key)
+        saved = V.contracts['funcs'].pop(key)
+        try:
+            out |= func_modset(V, key, [key])
+        finally:
+            V.contracts['funcs'][key] = saved
+            _nested.discard(key)
     return out
 
 
